@@ -779,3 +779,8 @@ Proof.
         vm_compute; repeat split; reflexivity.
     + apply fits_small; cbn; lia.
 Qed.
+
+(* the length prefix of the title is a u32: a title of 2^32 bytes is stored with the prefix of the empty title
+   (the witness is 4 GiB, so it is stated symbolically) *)
+Lemma title_length_wraps L : N.of_nat (length (title L)) = 4294967296 -> firstn 4 (enc_header L) = [0; 0; 0; 0].
+Proof. intro H. unfold enc_header. rewrite H. reflexivity. Qed.
